@@ -324,7 +324,9 @@ impl<const BITS: usize, const LIMBS: usize> Uint<BITS, LIMBS> {
             carry = (x >> (word_bits - bits - 1)) >> 1;
         }
         r.apply_mask();
-        (r, carry != 0)
+        // Bits are also lost through the whole-limb move and the mask, not only
+        // through the last carry: the product overflows iff a set bit leaves.
+        (r, !self.is_zero() && rhs > self.leading_zeros())
     }
 
     /// Left shift by `rhs` bits.
@@ -387,7 +389,9 @@ impl<const BITS: usize, const LIMBS: usize> Uint<BITS, LIMBS> {
             r.limbs[LIMBS - 1 - i - limbs] = (x >> bits) | carry;
             carry = (x << (word_bits - bits - 1)) << 1;
         }
-        (r, carry != 0)
+        // Bits are also lost through the whole-limb move, not only through the
+        // last carry: the shift is lossy iff a set bit leaves.
+        (r, !self.is_zero() && rhs > self.trailing_zeros())
     }
 
     /// Right shift by `rhs` bits.
